@@ -154,6 +154,12 @@ func accessPath(v ssa.Value) string {
 				if len(stores) == 1 {
 					return accessPath(stores[0])
 				}
+			case *ssa.FreeVar:
+				// a captured variable that is assigned exactly once (a spilled parameter, typically): every load
+				// of it, in whichever closure, is the same value
+				if capturedNeverReassigned(a) {
+					return "captured:" + a.Parent().Name() + ":" + a.Name()
+				}
 			}
 		}
 	case *ssa.Extract:
